@@ -2,6 +2,7 @@ package mgr
 
 import (
 	"fmt"
+	"sort"
 	"time"
 
 	"github.com/btcsuite/btcd/btcec/v2"
@@ -60,6 +61,23 @@ func (w *World) pickAcct(s waddrmgr.KeyScope) *Acct {
 
 var bs0 = func(w *World) *waddrmgr.BlockStamp {
 	return &waddrmgr.BlockStamp{Height: 0, Hash: *w.Params.GenesisHash, Timestamp: w.Params.GenesisBlock.Header.Timestamp}
+}
+
+// impStamp is the block stamp handed to an import: the genesis block, or (half
+// of the time, once the manager has followed the chain) a block the manager has
+// been synced through.  Neither is older than the manager's start block
+// (genesis), so no import moves the start block.
+func (w *World) impStamp() *waddrmgr.BlockStamp {
+	if w.Height > 0 && len(w.Hashes) > 0 && w.R.Intn(2) == 0 {
+		var hs []int
+		for h := range w.Hashes {
+			hs = append(hs, int(h))
+		}
+		sort.Ints(hs)
+		h := int32(hs[w.R.Intn(len(hs))])
+		return &waddrmgr.BlockStamp{Height: h, Hash: w.Hashes[h], Timestamp: time.Unix(int64(1600000000+int(h)*600), 0)}
+	}
+	return bs0(w)
 }
 
 // Gen draws the next operation.
@@ -399,6 +417,7 @@ func (w *World) opImportPriv() *Op {
 	e := &Addr{A: addr, Str: addr.String(), Scope: s, Acct: waddrmgr.ImportedAddrAccount, Kind: "imppriv", Pub: p33[:], Priv: kb, Type: t}
 	w.secret("imported-key "+e.Str, kb)
 	w.secret("imported-wif "+e.Str, []byte(wif.String()))
+	stamp := w.impStamp()
 	op := &Op{Kind: "importpriv", Mutates: true, Name: fmt.Sprintf("importpriv %v -> %s", s, e.Str)}
 	switch {
 	case w.M.IsLocked() && !w.WatchOnly:
@@ -410,7 +429,7 @@ func (w *World) opImportPriv() *Op {
 	}
 	op.Run = func(ns walletdb.ReadWriteBucket) error {
 		sm := w.Scoped(s)
-		ma, err := sm.ImportPrivateKey(ns, wif, bs0(w))
+		ma, err := sm.ImportPrivateKey(ns, wif, stamp)
 		if err == nil {
 			op.Returned = []waddrmgr.ManagedAddress{ma}
 			op.Expected = []*Addr{e}
@@ -446,6 +465,7 @@ func (w *World) opReimport() *Op {
 		return nil
 	}
 	byPriv := e.Priv != nil && w.Unlocked() && w.R.Intn(2) == 0
+	stamp := w.impStamp()
 	op := &Op{Kind: "reimport", Name: fmt.Sprintf("import the key of the known %s address %s again (private=%v, used=%v)", e.Kind, e.Str, byPriv, e.Used), WantErr: "ErrDuplicateAddress"}
 	s := e.Scope
 	op.Run = func(ns walletdb.ReadWriteBucket) error {
@@ -456,10 +476,10 @@ func (w *World) opReimport() *Op {
 			if err != nil {
 				return fmt.Errorf("oracle: %w", err)
 			}
-			_, err = sm.ImportPrivateKey(ns, wif, bs0(w))
+			_, err = sm.ImportPrivateKey(ns, wif, stamp)
 			return err
 		}
-		_, err := sm.ImportPublicKey(ns, pub, bs0(w))
+		_, err := sm.ImportPublicKey(ns, pub, stamp)
 		return err
 	}
 	return op
@@ -483,10 +503,11 @@ func (w *World) opImportPub() *Op {
 		return nil
 	}
 	e := &Addr{A: addr, Str: addr.String(), Scope: s, Acct: waddrmgr.ImportedAddrAccount, Kind: "imppub", Pub: p33[:], Type: t}
+	stamp := w.impStamp()
 	op := &Op{Kind: "importpub", Mutates: true, Name: fmt.Sprintf("importpub %v -> %s", s, e.Str)}
 	op.Run = func(ns walletdb.ReadWriteBucket) error {
 		sm := w.Scoped(s)
-		ma, err := sm.ImportPublicKey(ns, pub, bs0(w))
+		ma, err := sm.ImportPublicKey(ns, pub, stamp)
 		if err == nil {
 			op.Returned = []waddrmgr.ManagedAddress{ma}
 			op.Expected = []*Addr{e}
@@ -544,6 +565,7 @@ func (w *World) opImportScript(kind string) *Op {
 		return nil
 	}
 	e := &Addr{A: addr, Str: addr.String(), Scope: s, Acct: waddrmgr.ImportedAddrAccount, Kind: kind, Script: script, Secret: secret, Type: t}
+	stamp := w.impStamp()
 	op := &Op{Kind: "import" + kind, Mutates: true, Name: fmt.Sprintf("import %s %v secret=%v -> %s", kind, s, secret, e.Str)}
 	if secret {
 		w.secret("imported-script "+e.Str, script)
@@ -574,11 +596,11 @@ func (w *World) opImportScript(kind string) *Op {
 		var err error
 		switch kind {
 		case "script":
-			ma, err = sm.ImportScript(ns, script, bs0(w))
+			ma, err = sm.ImportScript(ns, script, stamp)
 		case "wscript":
-			ma, err = sm.ImportWitnessScript(ns, script, bs0(w), 0, secret)
+			ma, err = sm.ImportWitnessScript(ns, script, stamp, 0, secret)
 		case "tscript":
-			ma, err = sm.ImportTaprootScript(ns, tap, bs0(w), 1, secret)
+			ma, err = sm.ImportTaprootScript(ns, tap, stamp, 1, secret)
 		}
 		if err == nil {
 			op.Returned = []waddrmgr.ManagedAddress{ma}
